@@ -34,7 +34,7 @@ import (
 func init() {
 	core.RegisterMeta("C31", core.Meta{
 		Rule: "base sessions (TLS 1.0/1.2/1.3 x suites x with/without client certificate in the ticket) from a zcrypto server with explicit ticket keys; per session every single-byte flip and every truncation of the ticket (exhaustive), extensions, zero ticket, foreign key name, foreign ticket, MAC recomputed under a foreign key (also with the foreign key installed), spliced IV/ciphertext/MAC of two tickets, cross-version tickets, " +
-			"each presented through the client's session cache (hook) and, for TLS<=1.2, through ClientFingerprintConfiguration; SetSessionTicketKeys rotation histories, legacy SessionTicketKey, automatic rotation and the 7-day lifetime driven by Config.Time, tickets disabled, suite dropped by the server; automatic-rotation histories under clock jumps (1 h ... 15 d) that make keys expire and be pruned: genuine tickets follow the documented schedule, tickets sealed by the harness (well-formed state created \"now\") under the zero-valued key, the all-0xff key, keys derived from all-zero / all-0xff seeds, a foreign server's key and a current key name with zero material never resume, and the hook's key-name snapshot is checked after every step (no zero name, no duplicates, count within the schedule). " +
+			"each presented through the client's session cache (hook) and, for TLS<=1.2, through ClientFingerprintConfiguration; SetSessionTicketKeys rotation histories, legacy SessionTicketKey, automatic rotation and the 7-day lifetime driven by Config.Time, tickets disabled, suite dropped by the server; Config.Clone histories (every Config owns its key list; tickets of each presented to each; key-name snapshots of all configs checked after every step); three-connection histories (authentic ticket refused for a non-key reason, the ticket issued by the following full handshake must describe that handshake); automatic-rotation histories under clock jumps (1 h ... 15 d) that make keys expire and be pruned: genuine tickets follow the documented schedule, tickets sealed by the harness (well-formed state created \"now\") under the zero-valued key, the all-0xff key, keys derived from all-zero / all-0xff seeds, a foreign server's key and a current key name with zero material never resume, and the hook's key-name snapshot is checked after every step (no zero name, no duplicates, count within the schedule). " +
 			"non-trivial = a presentation whose ticket bytes were seen in the tapped ClientHello and whose handshake outcome was decided; distinct by (session, route, mutation) or (history, epoch, ticket)",
 		MinNontrivial:         5000,
 		MinNontrivialThorough: 40000,
@@ -421,6 +421,168 @@ func runC31(c *core.Ctx) {
 	c31Lifetimes(c)
 	c31AutoRotation(c)
 	c31ThreeConnections(c)
+	c31CloneHistories(c)
+}
+
+// c31CloneHistories: Config.Clone and SetSessionTicketKeys. Model: every Config owns its key list; a clone starts
+// with a copy of the list its source had at clone time; SetSessionTicketKeys replaces the list of that Config only.
+func c31CloneHistories(c *core.Ctx) {
+	total := c.Pick(32, 480)
+	for h := 0; h < total; h++ {
+		if h%c.NShards != c.Shard {
+			continue
+		}
+		gr := c.GlobalRng(fmt.Sprintf("clone:%d", h))
+		spec := c31Specs[[]int{0, 1, 4, 3}[h%4]]
+		label := fmt.Sprintf("clone%04d:%s", h, spec.Name)
+		seed := gr.Uint64() | 1
+		pool := make([]ticketKeyMat, 7)
+		for i := range pool {
+			pool[i] = mkTicketKey(gr)
+		}
+		type cfgM struct {
+			name string
+			cfg  *ztls.Config
+			keys []ticketKeyMat
+		}
+		var cfgs []*cfgM
+		var hist []string
+		type issued struct {
+			base *c31Base
+			key  [16]byte
+			from string
+		}
+		var tickets []issued
+		randKeys := func() []ticketKeyMat {
+			n := 1 + gr.IntN(3)
+			var out []ticketKeyMat
+			for _, i := range gr.Perm(len(pool))[:n] {
+				out = append(out, pool[i])
+			}
+			return out
+		}
+		setKeys := func(m *cfgM, ks []ticketKeyMat) {
+			var raw [][32]byte
+			d := ""
+			for _, k := range ks {
+				raw = append(raw, k.Key)
+				d += fmt.Sprintf("%x ", k.Name[:3])
+			}
+			m.cfg.SetSessionTicketKeys(raw)
+			m.keys = append([]ticketKeyMat(nil), ks...)
+			hist = append(hist, fmt.Sprintf("%s.SetSessionTicketKeys([%s])", m.name, d))
+		}
+		clone := func(m *cfgM) *cfgM {
+			n := &cfgM{name: string(rune('A' + len(cfgs))), cfg: m.cfg.Clone(), keys: append([]ticketKeyMat(nil), m.keys...)}
+			cfgs = append(cfgs, n)
+			hist = append(hist, fmt.Sprintf("%s := %s.Clone()", n.name, m.name))
+			return n
+		}
+		broken := false
+		crossCheck := func() {
+			for _, m := range cfgs {
+				names, _ := ztls.VerifTicketKeyNames(m.cfg)
+				same := len(names) == len(m.keys)
+				for i := 0; same && i < len(names); i++ {
+					same = names[i] == m.keys[i].Name
+				}
+				if !same {
+					var want [][16]byte
+					for _, k := range m.keys {
+						want = append(want, k.Name)
+					}
+					c.Violation("clone_history:config_key_list_differs_from_its_own_history", fmt.Sprintf("history %v: config %s holds %x, its own SetSessionTicketKeys/Clone history says %x", hist, m.name, names, want), label, hist)
+					broken = true
+				}
+			}
+			c.Eval(1)
+		}
+		issue := func(m *cfgM) bool {
+			sess, _, ss, err := spec.issue(c, m.cfg, seed+uint64(100+len(tickets)))
+			if err != nil {
+				if err == errPanicReported {
+				} else if err.Error() == "watchdog" {
+					noteWatchdog(c, "C31 "+label)
+				} else {
+					c.Violation("initial_session_failed:"+spec.Name, err.Error(), label, hist)
+				}
+				return false
+			}
+			nb := &c31Base{Spec: spec, Seed: seed, Session: sess, Ticket: ztls.VerifSessionTicket(sess), Vers: ss.Version, Suite: ss.Suite}
+			var name [16]byte
+			copy(name[:], nb.Ticket)
+			if name != m.keys[0].Name {
+				c.Violation("ticket_not_issued_under_first_current_key", fmt.Sprintf("history %v: %s issued a ticket named %x, its first key is %x", hist, m.name, name, m.keys[0].Name), label, hist)
+			}
+			tickets = append(tickets, issued{nb, name, m.name})
+			hist = append(hist, fmt.Sprintf("ticket#%d issued by %s", len(tickets)-1, m.name))
+			return true
+		}
+		presentAll := func(step int) {
+			first := 0
+			if len(tickets) > 6 {
+				first = len(tickets) - 6
+			}
+			for ti := first; ti < len(tickets); ti++ {
+				tk := tickets[ti]
+				for ci, m := range cfgs {
+					want := false
+					for _, k := range m.keys {
+						if k.Name == tk.key {
+							want = true
+						}
+					}
+					cs, ss, onWire, to := tk.base.present(c, m.cfg, tk.base.Ticket, "cache", seed+uint64(10000*step+100*ti+ci))
+					if to {
+						noteWatchdog(c, "C31 "+label)
+						continue
+					}
+					mut := "clone_history:key_not_in_this_configs_list"
+					if want {
+						mut = "clone_history:key_in_this_configs_list"
+					}
+					tk.base.judge(c, fmt.Sprintf("%s/step%d/ticket#%d(by %s)->%s", label, step, ti, tk.from, m.name), "cache", mut, tk.base.Ticket, want, cs, ss, onWire, label, step, ti, ci)
+				}
+			}
+		}
+		// fixed prefix: keys on A, clone, keys on the clone (and, every other history, on the original first)
+		a := &cfgM{name: "A", cfg: spec.serverConfig(seed, fixedNow)}
+		cfgs = append(cfgs, a)
+		setKeys(a, []ticketKeyMat{pool[0]})
+		crossCheck()
+		ok := issue(a)
+		b := clone(a)
+		crossCheck()
+		if h%2 == 0 {
+			setKeys(b, []ticketKeyMat{pool[1]})
+		} else {
+			setKeys(a, []ticketKeyMat{pool[2], pool[0]})
+		}
+		crossCheck()
+		ok = ok && issue(b) && issue(a)
+		if ok {
+			presentAll(0)
+		}
+		// random continuation
+		steps := 4 + gr.IntN(4)
+		for st := 1; ok && st <= steps && !broken; st++ {
+			m := cfgs[gr.IntN(len(cfgs))]
+			switch x := gr.IntN(10); {
+			case x < 6:
+				setKeys(m, randKeys())
+			case x < 8 && len(cfgs) < 3:
+				m = clone(m)
+			default:
+				setKeys(m, randKeys())
+			}
+			crossCheck()
+			if !issue(m) {
+				break
+			}
+			presentAll(st)
+		}
+		c.Count("clone_histories", 1)
+	}
 }
 
 // ---------------------------------------------------------------------------
